@@ -2,6 +2,8 @@ package spine
 
 import (
 	"fmt"
+	"maps"
+	"sync"
 
 	"github.com/enbility/spine-go/api"
 	"github.com/enbility/spine-go/model"
@@ -14,6 +16,9 @@ type Feature struct {
 	description *model.DescriptionType
 	role        model.RoleType
 	operations  map[model.FunctionType]api.OperationsInterface
+
+	// the description and the operations are set while the feature is already in use
+	muxFeature sync.RWMutex
 }
 
 var _ api.FeatureInterface = (*Feature)(nil)
@@ -41,18 +46,31 @@ func (r *Feature) Role() model.RoleType {
 }
 
 func (r *Feature) Operations() map[model.FunctionType]api.OperationsInterface {
-	return r.operations
+	r.muxFeature.RLock()
+	defer r.muxFeature.RUnlock()
+
+	// return a copy, the caller uses it without the lock
+	return maps.Clone(r.operations)
 }
 
 func (r *Feature) Description() *model.DescriptionType {
+	r.muxFeature.RLock()
+	defer r.muxFeature.RUnlock()
+
 	return r.description
 }
 
 func (r *Feature) SetDescription(d *model.DescriptionType) {
+	r.muxFeature.Lock()
+	defer r.muxFeature.Unlock()
+
 	r.description = d
 }
 
 func (r *Feature) SetDescriptionString(s string) {
+	r.muxFeature.Lock()
+	defer r.muxFeature.Unlock()
+
 	r.description = util.Ptr(model.DescriptionType(s))
 }
 
